@@ -248,6 +248,38 @@ impl<'tcx> Cx<'tcx> {
                     Some(GlobalAlloc::Memory(alloc)) => {
                         // reference to a promoted scalar (e.g. `&StateType::N`): read the pointee
                         let mut out = "{\"mem\":true}".to_string();
+                        // reference to a promoted `&str` (e.g. the right-hand side of `name == ".got"`)
+                        if let ty::Ref(_, pointee, _) = ty.kind() {
+                            if let ty::Ref(_, inner, _) = pointee.kind() {
+                                if inner.is_str() {
+                                    let a = alloc.inner();
+                                    let off = ptr.into_raw_parts().1.bytes() as usize;
+                                    if off + 16 <= a.len() {
+                                        let rd = |lo: usize| -> u64 {
+                                            let b = a.inspect_with_uninit_and_ptr_outside_interpreter(lo..lo + 8);
+                                            let mut v: u64 = 0;
+                                            for (i, x) in b.iter().enumerate() {
+                                                v |= (*x as u64) << (8 * i);
+                                            }
+                                            v
+                                        };
+                                        let inner_off = rd(off) as usize;
+                                        let len = rd(off + 8) as usize;
+                                        for (poff, prov) in a.provenance().ptrs().iter() {
+                                            if poff.bytes() as usize == off {
+                                                if let Some(GlobalAlloc::Memory(ia)) = tcx.try_get_global_alloc(prov.alloc_id()) {
+                                                    let ib = ia.inner();
+                                                    if inner_off + len <= ib.len() {
+                                                        let bytes = ib.inspect_with_uninit_and_ptr_outside_interpreter(inner_off..inner_off + len);
+                                                        out = format!("{{\"ref_str\":{}}}", esc(&String::from_utf8_lossy(bytes)));
+                                                    }
+                                                }
+                                            }
+                                        }
+                                    }
+                                }
+                            }
+                        }
                         if let ty::Ref(_, pointee, _) = ty.kind() {
                             let is_scalar = pointee.is_integral() || pointee.is_bool() || matches!(pointee.kind(), ty::Adt(d, _) if d.is_enum() && d.variants().iter().all(|v| v.fields.is_empty()));
                             if is_scalar {
@@ -612,11 +644,26 @@ impl Callbacks for Dump {
         let mut cx = Cx { tcx, tymap: HashMap::new(), tydesc: Vec::new() };
         let mut bodies = Vec::new();
         let mut consts = Vec::new();
+        let mut statics: Vec<String> = Vec::new();
         for ldid in tcx.hir_body_owners() {
             let did = ldid.to_def_id();
             match tcx.def_kind(did) {
                 DefKind::Fn | DefKind::AssocFn => bodies.push(cx.body(did, "fn")),
                 DefKind::Closure => bodies.push(cx.body(did, "closure")),
+                DefKind::Static { .. } => {
+                    // statics holding a wide reference (&[u8] / &str): record the length of the referent
+                    if let Ok(alloc) = tcx.eval_static_initializer(did) {
+                        let a = alloc.inner();
+                        if a.len() == 16 {
+                            let b = a.inspect_with_uninit_and_ptr_outside_interpreter(8..16);
+                            let mut v: u64 = 0;
+                            for (i, x) in b.iter().enumerate() {
+                                v |= (*x as u64) << (8 * i);
+                            }
+                            statics.push(format!("{{\"name\":{},\"fat_len\":{}}}", esc(&tcx.def_path_str(did)), v));
+                        }
+                    }
+                }
                 DefKind::Const { .. } | DefKind::AssocConst { .. } => {
                     let ty = tcx.type_of(did).instantiate_identity().skip_norm_wip();
                     if let Ok(cv) = tcx.const_eval_poly(did) {
@@ -631,13 +678,14 @@ impl Callbacks for Dump {
         }
         let nb = bodies.len();
         let doc = format!(
-            "{{\"crate\":{},\"profile_overflow_checks\":{},\"debug_assertions\":{},\"cfg_test\":{},\"n_bodies\":{},\"consts\":[{}],\"types\":[{}],\"bodies\":[\n{}\n]}}",
+            "{{\"crate\":{},\"profile_overflow_checks\":{},\"debug_assertions\":{},\"cfg_test\":{},\"n_bodies\":{},\"consts\":[{}],\"statics\":[{}],\"types\":[{}],\"bodies\":[\n{}\n]}}",
             esc(&cname),
             tcx.sess.overflow_checks(),
             tcx.sess.opts.debug_assertions,
             tcx.sess.is_test_crate(),
             nb,
             consts.join(","),
+            statics.join(","),
             cx.tydesc.join(","),
             bodies.join(",\n")
         );
